@@ -50,6 +50,7 @@ class Ob:
     module: Optional[str] = None   # module in which `call` is evaluated
     replay_path: Optional[str] = None
     validated: int = 0             # native replays that agreed with the symbolic verdict
+    replay_history: Optional[str] = None   # file with the earlier native calls a history-dependent replay needs
 
 
 def pick(pool, i: int):
